@@ -221,6 +221,46 @@ var iteSorts = map[string]string{}
 var iteMu sync.Mutex
 
 // nameFor introduces (once) a defined name for a term whose sort is known.
+// hasBoolStructure: does the (macro) definition of a name expand to something a pattern must not contain?
+func (c *SMTCtx) hasBoolStructure(name string, seen map[string]bool) bool {
+	if seen[name] {
+		return false
+	}
+	seen[name] = true
+	d, ok := c.defs[name]
+	if !ok {
+		return false
+	}
+	if _, isMacro := c.defSort[name]; !isMacro {
+		return false // a declared constant with a defining equation: opaque to the pattern checker
+	}
+	for _, bad := range []string{"(ite ", "(not ", "(and ", "(or ", "(=> ", "(= ", "(<= ", "(< ", "(>= ", "(> "} {
+		if strings.Contains(d, bad) {
+			return true
+		}
+	}
+	for _, sym := range lineSymbols(d) {
+		if c.hasBoolStructure(sym, seen) {
+			return true
+		}
+	}
+	return false
+}
+
+// opaqueFor: a constant equal to the defined name (for use inside patterns).
+func (c *SMTCtx) opaqueFor(name string) string {
+	if n, ok := c.named["@"+name]; ok {
+		return n
+	}
+	c.nfresh++
+	n := fmt.Sprintf("pat!%d", c.nfresh)
+	c.lines = append(c.lines, fmt.Sprintf("(declare-const %s %s)", n, c.defSort[name]))
+	c.lines = append(c.lines, fmt.Sprintf("(assert (= %s %s))", n, name))
+	c.defs[n] = name
+	c.named["@"+name] = n
+	return n
+}
+
 func (c *SMTCtx) nameFor(s string) string {
 	if n, ok := c.named[s]; ok {
 		return n
@@ -404,14 +444,15 @@ type SMTCtx struct {
 	named    map[string]string
 	curTag   string         // reach term of the block being executed (path slicing)
 	tagAt    map[int]string // index of an assert line -> tag it was emitted under
+	defSort  map[string]string
 }
 
 func newCtx() *SMTCtx {
-	return &SMTCtx{declared: map[string]bool{}, defs: map[string]string{}, defLine: map[string]int{}, sortOfTerm: iteSorts, named: map[string]string{}, tagAt: map[int]string{}}
+	return &SMTCtx{declared: map[string]bool{}, defs: map[string]string{}, defLine: map[string]int{}, sortOfTerm: iteSorts, named: map[string]string{}, tagAt: map[int]string{}, defSort: map[string]string{}}
 }
 
 func (c *SMTCtx) clone() *SMTCtx {
-	n := &SMTCtx{lines: append([]string(nil), c.lines...), nfresh: c.nfresh, declared: map[string]bool{}, defs: c.defs, defLine: c.defLine, sortOfTerm: c.sortOfTerm, named: c.named, curTag: c.curTag, tagAt: c.tagAt}
+	n := &SMTCtx{lines: append([]string(nil), c.lines...), nfresh: c.nfresh, declared: map[string]bool{}, defs: c.defs, defLine: c.defLine, sortOfTerm: c.sortOfTerm, named: c.named, curTag: c.curTag, tagAt: c.tagAt, defSort: c.defSort}
 	for k := range c.declared {
 		n.declared[k] = true
 	}
@@ -472,6 +513,7 @@ func (c *SMTCtx) Define(hint string, t Term) Term {
 	}
 	c.lines = append(c.lines, fmt.Sprintf("(define-fun %s () %s %s)", name, t.Sort, t.S))
 	c.defs[name] = t.S
+	c.defSort[name] = t.Sort
 	c.defLine[name] = len(c.lines) - 1
 	return Term{name, t.Sort}
 }
@@ -624,7 +666,15 @@ func runOne(ctx context.Context, solver, file string, timeoutS int, wantModel bo
 		return SolveResult{Status: "timeout", Solver: solver, Secs: time.Since(start).Seconds()}
 	}
 	raw := out.String()
-	first := strings.TrimSpace(strings.SplitN(raw, "\n", 2)[0])
+	first := ""
+	for _, ln := range strings.Split(raw, "\n") {
+		ln = strings.TrimSpace(ln)
+		if ln == "" || strings.HasPrefix(ln, "WARNING") {
+			continue
+		}
+		first = ln
+		break
+	}
 	res := SolveResult{Solver: solver, Secs: time.Since(start).Seconds(), Raw: raw}
 	switch {
 	case first == "unsat":
